@@ -268,6 +268,11 @@ def check_units(ctx, out):
     out.inst("C01.units", n, 5, note="range bounds / clamps that involve character indices of the intra-line diff")
 
 
+def _span_monotone(ctx):
+    from rules.C02 import span_verdict
+    return span_verdict(ctx) is True and ctx.__dict__.get("_span_monotone") is True
+
+
 def check_search(ctx, out, rule="C01.search"):
     n = 0
     samples = []
@@ -292,6 +297,12 @@ def check_search(ctx, out, rule="C01.search"):
             continue
         ok, detail, ev = O.check_predicate(ctx.facts, cb, kind)
         evals += ev
+        if not ok and detail.startswith("not provably monotone") and _span_monotone(ctx):
+            # a comparator the enumeration cannot follow (a trait method, a closure parameter): its outcomes are
+            # monotone along every ordered list of the span model, which walked it in its monomorphised context
+            n += 1
+            samples.append("%s in %s: monotone along the span model's ordered lists" % (nm, b.id.split("::")[-1]))
+            continue
         if ok:
             n += 1
             samples.append("%s in %s: monotone on %d model evaluations" % (nm, b.id.split("::")[-1], ev))
@@ -370,7 +381,10 @@ def _check_affects(ctx, out, vb):
     # the detector
     info = ctx.validator(name)
     det = ctx.facts.bodies.get(info["detect"]) if info and info.get("detect") else None
-    if det is not None:
+    if det is not None and shared.detect_cases_verdict(ctx, name) is True:
+        # decided on the detector's small model (fires iff the attribute is present and the content modified)
+        n_guard += 1
+    elif det is not None:
         ok = False
         for bi, j, s in det.assigns():
             rv = s["rv"]
